@@ -68,10 +68,12 @@ macro_rules! flavour_prologue {
 
 fn flavour_epilogue(src: usize, fake: usize, inj: InjectorPP) {
     unsafe {
-        assert!(REC_CALLS == 1, "OBL:C01.flavour.once: one installation request reaches the core exactly once");
-        assert!(REC_SRC == src, "OBL:C01.flavour.src: the core is asked to patch exactly the function given to when_called*");
-        assert!(REC_IS_BOOL || REC_TARGET == fake, "OBL:C01.flavour.target: the core is asked to redirect to exactly the replacement given to will_*");
-        assert!(inj.guards.len() == 1, "OBL:C02.guard.kept: the injector keeps the guard of every installation until it is dropped");
+        crate::obligations! {
+            (REC_CALLS == 1) => "OBL:C01.flavour.once: one installation request reaches the core exactly once",
+            (REC_SRC == src) => "OBL:C01.flavour.src: the core is asked to patch exactly the function given to when_called*",
+            (REC_IS_BOOL || REC_TARGET == fake) => "OBL:C01.flavour.target: the core is asked to redirect to exactly the replacement given to will_*",
+            (inj.guards.len() == 1) => "OBL:C02.guard.kept: the injector keeps the guard of every installation until it is dropped",
+        }
     }
     std::mem::forget(inj);
     kani::cover!(true, "COVER:end");
@@ -453,9 +455,11 @@ fn hist_body(k_installs: usize, targets: u8, kinds: u8) {
     unsafe {
         let j: usize = kani::any();
         kani::assume(j < A);
-        assert!(os::MEM[j] == SNAPSHOT[j], "OBL:C02.order: after the injector is gone every byte of code memory is what it was before it existed");
-        assert!(os::live_count() == live0 && os::N_MUNMAP == k_installs && !os::BAD_MUNMAP, "OBL:C12.cycle: every trampoline mapped during the lifetime is released exactly once; the live set is what it was");
-        assert!(!lock_held(), "OBL:C02.cycle.lock: the guard is free again, so the next lifetime starts from the same state");
+        crate::obligations! {
+            (os::MEM[j] == SNAPSHOT[j]) => "OBL:C02.order: after the injector is gone every byte of code memory is what it was before it existed",
+            (os::live_count() == live0 && os::N_MUNMAP == k_installs && !os::BAD_MUNMAP) => "OBL:C12.cycle: every trampoline mapped during the lifetime is released exactly once; the live set is what it was",
+            (!lock_held()) => "OBL:C02.cycle.lock: the guard is free again, so the next lifetime starts from the same state",
+        }
     }
     kani::cover!(true, "COVER:end");
 }
@@ -642,10 +646,12 @@ fn c05_dropglue_panicking() {
         PANICKING = false;
         let j: usize = kani::any();
         kani::assume(j < A);
-        assert!(os::MEM[j] == SNAPSHOT[j], "OBL:C05.dropglue.restores: unwinding restores every faked function");
-        assert!(os::live_count() == 0 && os::N_MUNMAP == 1, "OBL:C05.dropglue.releases: unwinding releases every trampoline");
-        assert!(MON_SEEN[2] == 1 && MON_SEEN[1] >= 2, "OBL:C04.unwind.restore-inside: the restoration done by unwinding went through the lock monitor (every step happened while the guard was still held)");
-        assert!(!lock_held(), "OBL:C05.dropglue.unlocks: unwinding releases the process-wide guard");
+        crate::obligations! {
+            (os::MEM[j] == SNAPSHOT[j]) => "OBL:C05.dropglue.restores: unwinding restores every faked function",
+            (os::live_count() == 0 && os::N_MUNMAP == 1) => "OBL:C05.dropglue.releases: unwinding releases every trampoline",
+            (MON_SEEN[2] == 1 && MON_SEEN[1] >= 2) => "OBL:C04.unwind.restore-inside: the restoration done by unwinding went through the lock monitor (every step happened while the guard was still held)",
+            (!lock_held()) => "OBL:C05.dropglue.unlocks: unwinding releases the process-wide guard",
+        }
     }
     let again = InjectorPP::new();
     assert!(lock_held(), "OBL:C05.dropglue.usable: a new injector can be created after the unwinding");
